@@ -331,6 +331,88 @@ def run_case(case, rec):
         rec.undecided("v2.table", f"torsion_angles raised {type(e).__name__}")
         return
     rec.count("v2-table-rows", len(tab))
+    # the same atoms as an abstract table (independent emitter): (a) both implementations' chi against the dihedral
+    # of the TABLE's coordinates, also when the mmCIF items come in another order; (b) the torsion table when one
+    # residue in the middle of a chain has lost its base (no chi may be reported for it)
+    if os.path.getsize(path) < 260_000:
+        _table_checks(case, rec, s3)
+
+
+def _ref_by_residue(rows):
+    by = {}
+    for r in rows:
+        by.setdefault((r["chain"], r["resseq"], r["icode"]), {"name": r["resname"], "atoms": {}})["atoms"].setdefault(r["name"], (r["x"], r["y"], r["z"]))
+    out = {}
+    for k, v in by.items():
+        a = v["atoms"]
+        names = ["O4'", "C1'", "N9", "C4"] if "N9" in a else ["O4'", "C1'", "N1", "C2"]
+        if all(n in a for n in names):
+            ref, margin = geom.dihedral(*[a[n] for n in names])
+            if margin >= 1e-3:
+                out[k] = (ref, v["name"], "N9" in a)
+    return by, out
+
+
+def _table_checks(case, rec, s3):
+    import random as _r
+
+    from rnapolis import parser, parser_v2, tertiary_v2
+    from vmon import emit
+
+    rows = [r for r in emit.rows_from_structure(s3) if r["model"] == s3.residues[0].model] if s3.residues else []
+    if not rows or any(not (r["chain"] or "").strip() for r in rows):
+        return
+    rng = _r.Random("C18:table:" + case["file"])
+    # (a) residue-level reader, usual and shuffled item order
+    for what, order in (("usual item order", None), ("shuffled item order", rng.sample(emit.CIF_COLS, len(emit.CIF_COLS)))):
+        by, ref = _ref_by_residue(rows)
+        sp = emit.scratch_path(".cif")
+        with open(sp, "w") as fh:
+            fh.write(emit.emit_cif(rows, col_order=order))
+        _cur["ctx"] = "chi of a re-emitted table, " + what
+        try:
+            with open(sp) as fh:
+                s = parser.read_3d_structure(fh, None)
+        except Exception as e:
+            rec.violation("chi.no-crash", {"input": case["file"] + " re-emitted, " + what, "exception": repr(e)[:200]}, mechanism=f"crash:{type(e).__name__}")
+            continue
+        for r in s.residues:
+            k = (r.auth.chain, r.auth.number, r.auth.icode) if r.auth is not None else None
+            if k not in ref or not r.is_nucleotide:
+                continue
+            try:
+                chi = r.chi
+            except Exception:
+                continue
+            rec.check("chi.equals-dihedral-of-the-written-table", chi is not None and not math.isnan(chi) and geom.wrapdiff(chi, ref[k][0]) <= 1e-6,
+                      lambda: {"residue": r.full_name, "chi": chi, "dihedral-of-written-coordinates": ref[k][0], "input": case["file"] + " re-emitted, " + what})
+    # (b) table-level torsion table, complete and with one base stripped
+    by, ref = _ref_by_residue(rows)
+    std = [k for k, v in ref.items() if v[1] in ("A", "G", "C", "U", "DA", "DG", "DC", "DT")]
+    variants = [("complete", rows)]
+    if len(std) >= 3:
+        victim = std[len(std) // 2]
+        base_names = {"N1", "C2", "N3", "C4", "C5", "C6", "N7", "C8", "N9", "O6", "N6", "N2", "O2", "O4", "N4", "C7"}
+        variants.append(("base of %s stripped" % (victim,), [r for r in rows if not ((r["chain"], r["resseq"], r["icode"]) == victim and r["name"] in base_names)]))
+    for what, rws in variants:
+        by, ref = _ref_by_residue(rws)
+        _cur["ctx"] = "v2 torsion table, " + what
+        try:
+            tab = tertiary_v2.Structure(parser_v2.parse_cif_atoms(emit.emit_cif(rws))).torsion_angles
+        except Exception as e:
+            rec.undecided("v2.table-chi", f"torsion_angles raised {type(e).__name__}")
+            continue
+        for _, row in tab.iterrows():
+            ic = row["insertion_code"] if isinstance(row["insertion_code"], str) and row["insertion_code"] else None
+            k = (str(row["chain_id"]), int(row["residue_number"]), ic)
+            c = row.get("chi")
+            has = c is not None and not (isinstance(c, float) and math.isnan(c))
+            if k in ref and ref[k][1] in ("A", "G", "C", "U", "DA", "DG", "DC", "DT", "T"):
+                mech = None
+                okv = has and abs(abs(float(c)) - abs(ref[k][0])) <= 1e-6
+                rec.check("v2.table-chi-magnitude", okv, lambda: {"residue": k, "table-chi": c, "dihedral-of-written-coordinates": ref[k][0], "input": case["file"] + ", " + what}, mechanism=mech)
+            elif k in by and k not in ref:
+                rec.check("v2.table-no-chi-without-glycosidic-atoms", not has, lambda: {"residue": k, "table-chi": c, "atoms": sorted(by[k]["atoms"])[:12], "input": case["file"] + ", " + what})
 
 
 def classify(v):
